@@ -15,7 +15,7 @@ import (
 // C16 at command level: trees with many identical files / chunks / sub-directories through the real archiver
 // with different read concurrency; backing up unchanged data a second time adds no data blobs.
 func TestVerif_C16(t *testing.T) {
-	res := kit.NewResult("one case = one backup of a tree with many identical files, repeated chunks and identical sub-directories (read concurrency 1..8), followed by a second backup of the unchanged source (with and without --force) and a backup of a renamed copy; judged by RepoTrace.tla NoDuplicateUpload at the end of every backup and by counting packs with data blobs uploaded by the second backup; distinct by (scenario seed, step)")
+	res := kit.NewResult("one case = one backup of a tree with many identical files, repeated chunks and identical sub-directories (read concurrency 1..8; every other scenario with several packs of other data between the repeats), followed by a second backup of the unchanged source (with and without --force) and a backup of a renamed copy; judged by RepoTrace.tla NoDuplicateUpload at the end of every backup and by counting packs with data blobs uploaded by the second backup; distinct by (scenario seed, step)")
 	tr := kit.NewNDJSON("trace.ndjson")
 	defer tr.Close()
 	ns := kit.Pick(5, 50)
@@ -53,6 +53,17 @@ func TestVerif_C16(t *testing.T) {
 				g.Path = filepath.Join("copy-of-dir0", filepath.Base(f.Path))
 				files = append(files, g)
 			}
+		}
+		// every other scenario: more than (connections+1) packs of other data between the first and the later
+		// occurrences of the repeated contents (small pack size, a bulk directory in the middle of the traversal
+		// order): packs are completed, uploaded and indexed while earlier blobs still wait in open packers
+		bulk := si%2 == 1
+		if bulk {
+			e.gopts.PackSize = 4
+			for f := 0; f < 4; f++ {
+				files = append(files, vFile{Path: filepath.Join("dir1x-bulk", fmt.Sprintf("big%d", f)), Size: 4500000 + r.Intn(500000), Seed: int64(7000 + f + 10*si), Kind: "rand"})
+			}
+			res.Count("backups_larger_than_several_packs", 1)
 		}
 		vWriteTree(t, src, files)
 		conc := uint([]int{1, 2, 4, 8}[r.Intn(4)])
@@ -107,7 +118,7 @@ func TestVerif_C16(t *testing.T) {
 			res.Violate("backup/known-data-stored-again", fmt.Sprintf("scenario %d: backup of a renamed copy uploaded %d packs with data blobs", seed, n), map[string]any{"scenario": seed})
 		}
 		res.Case(fmt.Sprintf("%d/renamed", seed), true)
-		res.Sample(map[string]any{"scenario": seed, "files": len(files), "distinct_contents": ncont, "read_concurrency": conc})
+		res.Sample(map[string]any{"scenario": seed, "files": len(files), "distinct_contents": ncont, "read_concurrency": conc, "bulk_between_repeats": bulk})
 		tr.Write(kit.Ev{"ev": "Reset", "proc": "env", "history": seed})
 		vWriteTrace(tr, e.trace(false))
 	}
